@@ -475,7 +475,27 @@ CLAIMED = {
         technique="Lean 4 proof (sampler and bisection state machines over translator-generated definitions) + trace correspondence",
         design="DESIGN.md §3 C18, §9"),
     "C16": dict(
-        text="Lean 4 theorems about definitions the translator regenerates from mri/linop.py Sense and the recon classes of mri/app.py "
+        text="The Sense FACTORY itself is translator-generated: Gen/SenseTree.lean (`senseBody`/`senseGen`) is the symbolic "
+             "execution of the statements of mri/linop.py Sense (tseg = comm = None: ishape/img_ndim handling, coil_batch_size "
+             "default, batching branch with its Vstack, comprehension and RECURSIVE call — parameters not forwarded take their "
+             "declared defaults —, S = Multiply(ishape, mps), FFT(S.oshape, axes) | NUFFT(S.oshape, coord) | NUFFT(S.oshape, "
+             "-coord).H, A = F*S, P = Multiply(F.oshape, weights**e), A = P*A) into a term over the operator vocabulary of "
+             "Model/C16Base.lean; the driver runs that term, and sense_gen_eq proves it equal to the normal form [P,] F, S / "
+             "Vstack(axis 0) of per-batch [P_c,] F, S_c (same Fourier operator and options in every batch, weights sliced iff the "
+             "array is per-coil under numpy broadcasting, inner calls never batch again) so that every theorem below is about what "
+             "the source builds; fft_axes_per_coil / fkindOf_perCoil: the generated FFT axes are exactly the image axes (never the "
+             "coil axis) and the Fourier leaf is FFT for coord None, NUFFT(coord) otherwise, NUFFT(-coord).H with transp_nufft. "
+             "Gen/ReconSetup.lean is generated from the statements of _estimate_weights and the three recon __init__s (+ the "
+             "defaults of LinearLeastSquares.__init__): which weights reach linop.Sense, y pre-multiplied by weights**e, what is "
+             "passed as lamda / proxg / G; Props/C16Recon.lean: senserecon_setup / l1waveletrecon_setup / tvrecon_setup (A = P_w F S "
+             "with the documented weights, 1/2||A x - y'||^2 = 1/2||P_w(F S x - y)||^2 for every weights/coord combination, lamda "
+             "routed as lambda/2||x||^2 only by SenseRecon, as the L1 threshold by the other two, G = FiniteDifference only for "
+             "TV), senserecon_cg_minimises (C14's generated cgArgs system of that problem is solved by x iff x minimises the "
+             "documented 1/2||P F S x - y||^2 + lambda/2||x||^2; via C14 cg_normal_eq), tvrecon_kkt_minimises (KKT points = fixed "
+             "points of C14's generated PDHG/ADMM set-ups minimise 1/2||P F S x - y||^2 + g(G x); via C14 kkt_is_minimiser), "
+             "unitary_transform_prox (UnitaryTransform(prox_g, W) is the prox of g o W for unitary W: the property's proviso for "
+             "L1WaveletRecon). Further "
+             "Lean 4 theorems about definitions the translator regenerates from mri/linop.py Sense and the recon classes of mri/app.py "
              "(Gen/SenseFormulas.lean: batching guard, num_coil_batches, batch range, Vstack axis, slice bounds of mps[...] and "
              "weights[...], per-coil test, keywords forwarded to the batches, FFT axes, exponent of weights**0.5, _estimate_weights "
              "rule, per recon class the y*weights**e exponent and prox/G construction): batch_slices_partition / "
@@ -494,11 +514,16 @@ CLAIMED = {
              "consistent_data_recovers (A injective, y = A x0, lamda = 0: x minimises iff x = x0). Tie: translator + the real "
              "operator's A(x) and A.H(y) vs the exact Gaussian-rational model with F supplied as exact fractions of numpy's FFT / "
              "single-coil nufft of basis images (1e-9), reified operator trees, recon set-ups.",
-        note="Trusted: Lean kernel; translator gen_c16; hypotheses of the adjoint theorems: the arrays are rectangular (every "
+        note="Trusted: Lean kernel; translator gen_c16; `Valid` (hypothesis of sense_gen_eq and of every operator theorem): "
+             "ishape is None or mps.shape[1:], and the model reads the weights array as per-coil exactly when numpy broadcasting "
+             "does (ndim = k-space ndim + 1 and shape[0] = coils) — the driver classifies the request by that documented rule, the "
+             "generated factory applies the source's own test; hypotheses of the adjoint theorems: the arrays are rectangular (every "
              "coil map has R entries, per-coil weights one row per coil: enforced by the driver's size checks); NOT proved: "
              "that the real A / A.H are the model's Op.apply / Op.adj (compared on every run for every batch size at 1e-9), "
-             "that FFT/NUFFT equal the matrix F, that the solvers reach the minimiser (objective "
-             "gap vs dense reference), tseg and comm are oracle/correspondence only; L1WaveletRecon only under numerically verified "
+             "that FFT/NUFFT equal the matrix F, that the solvers reach their fixed points (objective "
+             "gap vs dense reference), that P_w F S of Props/C16Recon (linear maps over real inner-product spaces) is the list "
+             "model's denotation (same formula, not formally connected), tseg and comm are oracle/correspondence only; "
+             "ConvSense/ConvImage are outside the property text and not modelled; L1WaveletRecon only under numerically verified "
              "unitarity of W.",
         technique="Lean 4 proof (batch partition, explicit encoding, recon objectives) over translator-generated set-up + correspondence",
         design="DESIGN.md §3 C16, §9"),
